@@ -47,6 +47,10 @@ CONFIGS["thorough"] = CONFIGS["quick"] + [
     for span, f0, r in ((30, "641.928232294317", "999999999999.500000"), (120, "29.946923000000", "0.250000"))]
 
 
+LONG = {"quick": [(32, 360, "641.928232294317")],
+        "thorough": [(32, 360, "641.928232294317"), (48, 120, "29.946923000000"), (24, 720, "218.811843796082")]}
+
+
 def describe(tier):
     return {
         "bounds": {"configs (ncoeff, exponent letter, span min, F0, RPHASE0)": CONFIGS[tier], "schemes": SCHEMES,
@@ -60,10 +64,14 @@ def describe(tier):
 
 
 def gen_cases(tier, seed):
+    # (the heaviest cases first: the pool takes cases in this order)
+    for part in ("all", "subset", "dense"):
+        yield {"kind": "shipped", "tier": tier, "part": part}
+    for n, span, f0 in LONG[tier]:
+        yield {"kind": "long", "n": n, "span": span, "f0": f0}
     for ci in range(len(CONFIGS[tier])):
         for scheme in SCHEMES:
             yield {"kind": "gen", "cfg": list(CONFIGS[tier][ci]), "scheme": scheme}
-    yield {"kind": "shipped"}
     yield {"kind": "mixed"}
 
 
@@ -84,6 +92,26 @@ def phase_exact_of(ph):
 
 def budget(f0):
     return F(1, 10 ** 8) + f0 * 86400 * F(1, 2 ** 51)
+
+
+def inversion_budget(f0):
+    """time_at inverts the prediction: p(time_at(ph)) - ph within 1e-8 cycle + F0 x (resolution of a Time, 2^-54 day)."""
+    return F(1, 10 ** 8) + f0 * 86400 * F(1, 2 ** 54)
+
+
+def check_inversion(res, case, p, ph, tb, f0, tag, sub):
+    """The library's own prediction at the time handed back must be the phase asked for."""
+    try:
+        back = p(tb)
+    except Exception as ex:
+        res.violation(f"{tag}|p(time_at(ph)) raised", f"{type(ex).__name__}: {ex} [{sub}]", case, sub)
+        return
+    res.transitions += 1
+    d = abs(phase_exact_of(back)[0] - phase_exact_of(ph)[0])
+    if not res.ratio("p(time_at(ph)) - ph / budget", d, inversion_budget(f0)):
+        res.violation(f"{tag}|time_at does not invert", f"p(time_at(ph)) differs from ph by {float(d):.3g} cycles (budget "
+                      f"{float(inversion_budget(f0)):.3g}) [{sub}]", case, sub)
+    res.hits["time_at: p(time_at(ph)) compared with ph in cycles"] += 1
 
 
 def time_grid(e):
@@ -185,6 +213,28 @@ def check_predictor(res, case, p, entries, sub0, tag):
                 if cands and min(abs(gv - w) - (F(1, 10 ** 9) * s + F(1, 10 ** 30)) for w, s in cands) > 0:
                     res.violation(f"{tag}|f0 value", f"f0(t, n={n}) = {float(gv)!r}, exact derivative {float(cands[0][0])!r} [{sub}]",
                                   case, dict(sub, n=n))
+    # ---- just after / before every span end that lies inside another span (junctions of touching or overlapping entries):
+    # the entry used must be one whose span contains the time (float64 MJDs cannot tell these times from the span end)
+    nsj = F(1, 86400 * 10 ** 9)
+    for k, e in enumerate(entries):
+        for m in (e.stop + 100 * nsj, e.stop + 300 * nsj, e.stop + 20 * nsj, e.start - 100 * nsj, e.start - 300 * nsj):
+            t = mjd_time(m)
+            me = exact_mjd(t)
+            cs = containing(entries, me)
+            if not cs or e in cs:
+                continue
+            sub = dict(sub0, entry=k, mjd=float(me), junction=True)
+            res.transitions += 1
+            try:
+                ph = p(t)
+                pa = p(Time([t.jd1, t.jd1], [t.jd2, t.jd2], format="jd", scale="utc", precision=9))
+            except Exception as ex:
+                res.violation(f"{tag}|call raised just past a junction", f"p(t) at MJD {float(me)!r}: {type(ex).__name__}: {ex} [{sub}]",
+                              case, sub)
+                continue
+            compare(phase_exact_of(ph)[0], me, "scalar prediction just past a junction", sub)
+            compare(phase_exact_of(pa)[0], me, "array prediction just past a junction", sub)
+            res.hits["times within 300 ns of a junction, inside the neighbouring span only"] += 1
     # ---- array calls: sorted, reversed, interleaved (first and last element in the same entry)
     ts_sorted = sorted(allpts, key=lambda x: x[1])
     orders = {"sorted": ts_sorted, "reversed": ts_sorted[::-1]}
@@ -320,6 +370,7 @@ def check_predictor(res, case, p, entries, sub0, tag):
                     res.violation(f"{tag}|time_at value", f"time_at(p(t)) is off by {float(dsec):.3g} s [entry {k}]", case,
                                   dict(sub0, entry=k))
                 res.hits["time_at"] += 1
+                check_inversion(res, case, p, ph, tb, e.f0, tag, dict(sub0, entry=k, mjd=float(me)))
                 # the same inversion started from guesses in this entry, in the neighbouring entries and two entries away
                 if sub0.get("scheme") == "touch" or tag == "shipped":
                     for dk in (0, -1, 1, -2, 2):
@@ -456,12 +507,84 @@ def shipped_case(case, res):
     p = pb.PhasePredictor.from_polyco(path)
     res.transitions += 1
     res.traces += 1
-    check_predictor(res, case, p, entries, {"file": "timing.dat", "rows": "all"}, "shipped")
-    q = p[[0, 1, 2, 4, 5, 6]]
-    check_predictor(res, case, q, [entries[i] for i in (0, 1, 2, 4, 5, 6)], {"file": "timing.dat", "rows": [0, 1, 2, 4, 5, 6]},
-                    "shipped subset")
-    res.hits["shipped file"] += 1
-    res.sample({"file": "tests/data/timing.dat", "entries": len(entries)}, 1)
+    part = case.get("part", "all")
+    if part == "all":
+        check_predictor(res, case, p, entries, {"file": "timing.dat", "rows": "all"}, "shipped")
+        res.hits["shipped file"] += 1
+    elif part == "subset":
+        q = p[[0, 1, 2, 4, 5, 6]]
+        check_predictor(res, case, q, [entries[i] for i in (0, 1, 2, 4, 5, 6)], {"file": "timing.dat", "rows": [0, 1, 2, 4, 5, 6]},
+                        "shipped subset")
+        t_in = mjd_time(entries[3].tmid)
+        empty_subsets(res, case, p, t_in, p(t_in))
+    else:
+        dense_time_at(res, case, p, entries, "shipped", 400 if case.get("tier") == "thorough" else 120)
+    res.sample({"file": "tests/data/timing.dat", "entries": len(entries), "part": part}, 1)
+
+
+def long_case(case, res):
+    """Many touching entries (days of contiguous validity): junction times, and time_at late in a long merged interval."""
+    n, span, f0s = case["n"], case["span"], case["f0"]
+    entries = polyco.make_entries(n, "touch", span, f0s, "146750669817.214345", 5, "e")
+    text = "".join(e.text() for e in entries)
+    p = pb.PhasePredictor.from_polyco(io.StringIO(text))
+    res.transitions += 1
+    res.traces += 1
+    sub0 = {"scheme": "touch", "entries": n, "span": span}
+    check_predictor(res, case, p, entries, sub0, "long")
+    res.hits["long contiguous file"] += 1
+    res.sample({"long": case}, 1)
+
+
+def dense_time_at(res, case, p, entries, tag, count):
+    """time_at(p(t)) for `count` times spread over the last third of the last validity interval (every one is checked)."""
+    a, b = p.intervals[-1]
+    length = (b - a).to_value(u.s)
+    f0 = entries[0].f0
+    for i in range(count):
+        x = length * (2 / 3 + (i + 0.37) / (3 * count))
+        t = a + x * u.s
+        res.state((tag, "dense time_at", i))
+        try:
+            ph = p(t)
+            tb = p.time_at(ph)
+        except Exception as ex:
+            res.violation(f"{tag}|dense time_at raised", f"{type(ex).__name__}: {ex} at +{x!r} s", case, {"x": x})
+            continue
+        res.transitions += 2
+        dsec = abs(exact_mjd(tb) - exact_mjd(t)) * 86400
+        if not res.ratio("time_at err / 1e-7 s", dsec, F(1, 10 ** 7) + F(1, 10 ** 6) / f0):
+            res.violation(f"{tag}|dense time_at value", f"time_at(p(t)) is off by {float(dsec):.3g} s at +{x!r} s", case, {"x": x})
+        check_inversion(res, case, p, ph, tb, f0, tag + " dense", {"x": x})
+    res.hits["time_at on a dense family late in a long interval"] += 1
+
+
+def empty_subsets(res, case, p, t_in, ph_in):
+    """A subset with no rows has no validity interval; every time and every phase is outside every span."""
+    for how, fn in (("p[:0]", lambda: p[:0]), ("p[[]]", lambda: p[[]]), ("p[all-False mask]", lambda: p[np.zeros(len(p), dtype=bool)])):
+        sub = {"subset": how}
+        res.transitions += 1
+        try:
+            q = fn()
+        except Exception as ex:
+            res.skipped[f"empty subset refused at selection ({type(ex).__name__})"] += 1
+            continue
+        try:
+            iv = q.intervals
+            if len(iv) != 0:
+                res.violation("empty subset|intervals", f"{how}.intervals = {iv!r}", case, sub)
+        except Exception as ex:
+            res.violation("empty subset|intervals raised", f"{how}.intervals: {type(ex).__name__}: {ex}", case, sub)
+        for nm, call in (("call", lambda: q(t_in)), ("f0", lambda: q.f0(t_in)), ("phasepol", lambda: q.phasepol(t_in)),
+                         ("time_at", lambda: q.time_at(ph_in))):
+            res.transitions += 1
+            try:
+                call()
+                res.violation(f"empty subset|{nm} accepted", f"{how}: {nm} returned a value", case, dict(sub, call=nm))
+            except ValueError:
+                res.hits["empty subset: everything is outside"] += 1
+            except Exception as ex:
+                res.violation(f"empty subset|{nm} wrong exception", f"{how}: {nm}: {type(ex).__name__}: {ex}", case, dict(sub, call=nm))
 
 
 def mixed_case(case, res):
@@ -490,7 +613,7 @@ def mixed_case(case, res):
 
 def check_case(case):
     res = report.Result()
-    {"gen": gen_case, "shipped": shipped_case, "mixed": mixed_case}[case["kind"]](case, res)
+    {"gen": gen_case, "shipped": shipped_case, "mixed": mixed_case, "long": long_case}[case["kind"]](case, res)
     return res
 
 
@@ -499,7 +622,10 @@ def main(argv=None):
         PID, gen_cases=gen_cases, check_case=check_case, describe=describe,
         required_hits=["spans merged", "several disjoint intervals", "unsorted array across entries", "outside rejected",
                        "phasepol", "history: predictions re-checked after phasepol", "time_at", "time_at with a guess in another entry", "time_at near the ends of an interval", "row subsets", "rows selected in another order",
-                       "coefficient count not a multiple of three", "D exponents", "shipped file", "mixed entries rejected", "other time scales"],
+                       "coefficient count not a multiple of three", "D exponents", "shipped file", "mixed entries rejected", "other time scales",
+                       "times within 300 ns of a junction, inside the neighbouring span only", "long contiguous file",
+                       "time_at: p(time_at(ph)) compared with ph in cycles", "time_at on a dense family late in a long interval",
+                       "empty subset: everything is outside"],
         assumptions=["decimal strings of the text are the exact inputs; time is the exact (jd1, jd2) of the Time object; budget "
                      "1e-8 cycle + F0*86400*2^-51", "times inside a < 1 ms gap between spans and exactly on a span end are "
                      "unconstrained (grid uses ends +-1 us)", "time_at is exercised only where the prediction is continuous"],
